@@ -34,7 +34,7 @@ Definition ref_footprints : list (string * (list string * list bool * list strin
   ("stor", (["150"; "550"], [true], ["is_dir"], [], []));
   ("syst", (["215"], [true], [], [], []));
   ("type", (["200"; "502"], [true], [], ["transfer_type"], []));
-  ("user", (["230"; "331"; "530"], [true], [], ["logged"; "user"; "current_directory"], ["user"; "logged"]));
+  ("user", (["230"; "331"; "530"], [true], [], ["logged"; "user"; "current_directory"], ["user"; "logged"; "rename_from"]));
   ("greeting", (["421"; "220"], [false; true], [], ["acquired"], []))
 ].
 
